@@ -81,7 +81,7 @@ def run_one(poly, d, turns):
             polys.append(g)
         return ids[k]
     pid(t.block)
-    inset_rec, hatch_rec, yields = [], [], []
+    inset_rec, hatch_rec, yields, hatch_lines = [], [], [], []
     orig_bp = Trench.buffer_polygon
     orig_zz = Trench.zigzag
     buffered = {}
@@ -96,8 +96,10 @@ def run_one(poly, d, turns):
     def zz(self, p):
         mask = self.zigzag_mask()
         res = p.intersection(mask)
-        pieces = sum(1 for ln in getattr(res, 'geoms', [res]) if ln.geom_type == 'LineString' and not ln.is_empty)
+        lines_ = [ln for ln in getattr(res, 'geoms', [res]) if ln.geom_type == 'LineString' and not ln.is_empty]
+        pieces = len(lines_)
         hatch_rec.append((buffered.get(p.wkb, 10 ** 6), pieces))
+        hatch_lines.append(lines_)
         return orig_zz(self, p)
     Trench.buffer_polygon = staticmethod(bp)
     Trench.zigzag = zz
@@ -139,7 +141,11 @@ def run_one(poly, d, turns):
             outs = [float(ln.difference(grown).length) for ln in lines]
             margin_in = float(sum(outs))
             inside_ok = margin_in <= 1e-9
-            where = sorted({'contour' if yields[i][0] else 'hatching-joins' for i, o in enumerate(outs) if o > 1e-9})
+            # a hatching polyline is the clipped hatch lines plus the joins between them: the lines themselves must be
+            # inside the block; a polyline that is outside although all its lines are inside is outside in a join
+            lines_out = sum(float(ln.difference(grown).length) for ls in hatch_lines for ln in ls)
+            where = sorted({'contour' if yields[i][0] else ('hatching-lines' if lines_out > 1e-9 else 'hatching-joins')
+                            for i, o in enumerate(outs) if o > 1e-9})
             cover = unary_union([ln.buffer(1.06 * d + 2e-5) for ln in lines])
             rest = t.block.difference(cover)
             margin_cov = float(rest.area / max(t.block.area, 1e-12))
